@@ -1,5 +1,5 @@
 """C08 When the connection ends everything resolves; a local drop still flushes (teardown sequence)."""
-from an import (Tracer, Explorer, guard_at, strip, walk, fmt, callee, const_eval, Inter)
+from an import (nested_bodies, logical_root, guard_at, Tracer, Explorer, guard_at, strip, walk, fmt, callee, const_eval, Inter)
 from mir import loc_str
 from effects import EffectEngine
 from muxcommon import *
@@ -60,7 +60,6 @@ def check(facts, rep, tier, cfg):
         return
     # the wind-down function: the in-crate fn whose effects contain map:drain
     eng0 = EffectEngine(facts, keep=lambda t: t in MS or t in ("send:Ping", "dropq:recv"))
-    from an import logical_root
     wd = None
     for b in crate.bodies:
         for bi, t in b.calls():
@@ -177,6 +176,79 @@ def check(facts, rep, tier, cfg):
     #         the handshake Acknowledge is queued first and its failure (outbound queue closed) is propagated
     import rules_c07 as _c07
     _c07.check_handoff(facts, rep, crate, "C08.R8")
+    # ---- R9 the peer's Close ends the receive loop; the receive loop dispatches with ignore_bind = false, the wind-down with true
+    rep.rule("C08.R9", "message classification: Close -> Ok(true), Binary/Ping/Pong -> Ok(false); the receive loop returns on true and "
+                       "dispatches with ignore_bind=false, the wind-down dispatches what the source still holds with ignore_bind=true")
+    pm = None
+    for b in crate.bodies:
+        if b.kind == "Closure" and any("ws::Message" in b.locals[i]["s"] for i in range(len(b.locals))) and \
+                any(callee(t) and callee(t)["name"] == "process_frame" for _, t in b.calls()):
+            pm = b
+    if pm is None:
+        rep.bad("C08.R9", "message-dispatcher", "", "the message dispatcher (Message -> frame) was not found (anchor missing)")
+    else:
+        rep.analysed(pm)
+        trm = Tracer(facts, pm)
+        wm = "%s (%s)" % (loc_str(pm.loc), pm.path)
+        table = {}
+        rets = []
+        for bi, blk in enumerate(pm.blocks):
+            if blk["cleanup"]:
+                continue
+            for st in blk["stmts"]:
+                if st["k"] == "Assign" and st["rv"]["k"] == "Aggregate" and st["rv"]["agg"].get("variant") == "Ok" and \
+                        str(st["rv"]["agg"].get("adt", "")).endswith("result::Result"):
+                    _ce = const_eval
+                    cv = _ce(trm.operand(st["rv"]["ops"][0])) if st["rv"]["ops"] else None
+                    if cv is not None:
+                        rets.append((bi, bool(cv)))
+        for gb in range(len(pm.blocks)):
+            if pm.term(gb)["k"] != "SwitchInt":
+                continue
+            g = guard_at(facts, pm, trm, gb)
+            if g is None or g.kind != "discr" or not g.adt or not g.adt.endswith("ws::Message"):
+                continue
+            for succ, v in g.edges:
+                for rb, val in rets:
+                    if isinstance(v, str) and (pm.edge_dominates((gb, succ), rb) or rb == succ):
+                        table.setdefault(v, set()).add(val)
+        want = {"Close": {True}, "Ping": {False}, "Pong": {False}, "Binary": {False}}
+        for var, wv in want.items():
+            if table.get(var) == wv:
+                rep.ok("C08.R9", "message/%s" % var, wm, "-> Ok(%s)" % sorted(wv)[0])
+            else:
+                rep.bad("C08.R9", "message/%s" % var, wm,
+                        "a %s message makes the dispatcher return %s, expected Ok(%s): %s" % (
+                            var, sorted(table.get(var, [])), sorted(wv)[0],
+                            "the peer's Close does not end the receive loop, so a closing peer is never noticed" if var == "Close"
+                            else "an ordinary message is taken for the peer's Close and ends the connection"))
+        # call sites of the dispatcher
+        from an import CallIndex
+        _ce2 = const_eval
+        sites = []
+        for cb, cbi, ct in CallIndex(facts).callers.get(logical_root(facts, pm).dp, []):
+            if len(ct["args"]) >= 3:
+                sites.append((cb, cbi, ct, _ce2(Tracer(facts, cb).operand(ct["args"][2]))))
+        wdp = set(x.dp for x in nested_bodies(facts, wd))
+        for cb, cbi, ct, val in sites:
+            ws_ = "%s (%s)" % (loc_str(ct["loc"]), cb.path)
+            in_wd = cb.dp in wdp
+            if val is None:
+                rep.bad("C08.R9", "ignore-bind/%s" % ("wind-down" if in_wd else "receive-loop"), ws_, "the ignore_bind argument is not a constant here")
+            elif bool(val) == in_wd:
+                rep.ok("C08.R9", "ignore-bind/%s" % ("wind-down" if in_wd else "receive-loop"), ws_, "ignore_bind = %s" % bool(val))
+            else:
+                rep.bad("C08.R9", "ignore-bind/%s" % ("wind-down" if in_wd else "receive-loop"), ws_,
+                        "the %s dispatches with ignore_bind = %s: %s" % (
+                            "wind-down" if in_wd else "receive loop", bool(val),
+                            "a buffered Bind makes the teardown wait on the bind queue" if in_wd else "every Bind request of the peer is silently ignored while the connection is healthy"))
+        rep.floor("C08.R9", "dispatcher call sites", len(sites), 2)
+        # the wind-down really dispatches what it takes from the source
+        if not any(c[0].dp in wdp for c in sites):
+            rep.bad("C08.R9", "wind-down-dispatches", where, "the wind-down polls the source for remaining messages but never dispatches them: data the peer "
+                                                              "sent before closing is dropped")
+        else:
+            rep.ok("C08.R9", "wind-down-dispatches", where, "remaining messages are handed to the dispatcher")
     # ---- entry: select arms and flag values
     entry = None
     idxc = Inter(facts).call_index()
@@ -236,7 +308,6 @@ def check(facts, rep, tier, cfg):
     # ---- R7 cancel safety of the send loop: it is dropped by the select when another arm wins, so it must never hold a dequeued message across an await
     rep.rule("C08.R7", "the send-loop arm (cancelled by the select when the handle is dropped) never awaits while holding a message taken off "
                        "the outbound queue: dequeue and start_send happen in one synchronous poll step")
-    from an import nested_bodies
     k7 = 0
     for arm, (role, fpath) in roles.items():
         if role != "send-loop":
@@ -358,7 +429,6 @@ def source_dispatch_before_eof(effs):
 
 def teardown_outcomes(facts, crate):
     """(wind-down body, {flag value: [ordered effect tuples]}) - shared with C05."""
-    from an import logical_root
     wd = None
     for b in crate.bodies:
         for bi, t in b.calls():
